@@ -5,7 +5,8 @@ from pyvc.harness import task
 from pyvc import setmode as SM
 from pyvc import values as V
 from .algos import (ALGOS, COV, AlgoState, depth, install_predicate_contracts, same_set, set_is, slack_num,
-                    transition, Specs)
+                    transition, unrolled_transition, Specs)
+from pyvc.values import Unsupported
 
 q = z3.Int("q!w")
 xc = z3.Int("x!c")  # quantified variable of the consumer clauses (must differ from the bound variables inside Specs)
@@ -17,10 +18,6 @@ def _promo(name, method, witness_sets, slack_of, gated=False):
         t.mode = "set-level: S, P, U arbitrary finite sets, regions and predicate answers arbitrary"
         install_predicate_contracts(t)
         A = AlgoState(t, name, with_U=("U" in witness_sets))
-        paths = t.run(ALGOS[name], name + "." + method, [], self_val=A.obj, setmode=True)
-        t.must_fail()
-        t.cover("two-candidates", [z3.Select(A.S0, 0), z3.Select(A.S0, 1), A.N >= 2])
-        t.no_raise(paths)
         sl = slack_of(A)
         arrs = {"S": A.S0, "P": A.P0, "U": A.U0}
         new = Specs(A).new(A.S0, [arrs[w] for w in witness_sets], A.REG0, sl)
@@ -28,6 +25,17 @@ def _promo(name, method, witness_sets, slack_of, gated=False):
             open_ = Specs(A).gate_open(A.S0, A.enable0)
         else:
             open_ = z3.BoolVal(True)
+        bounded = lambda: unrolled_transition(t, A, ALGOS[name], name + "." + method, "exactly_the_uncoverable_candidates_move_to_P",
+                                              S=lambda e: z3.And(z3.Select(A.S0, e), z3.Not(z3.And(open_, new(e)))),
+                                              P=lambda e: z3.Or(z3.Select(A.P0, e), z3.And(open_, new(e))), enable=open_ if gated else None)
+        try:
+            paths = t.run(ALGOS[name], name + "." + method, [], self_val=A.obj, setmode=True)
+        except Unsupported:
+            bounded()
+            raise
+        t.must_fail()
+        t.cover("two-candidates", [z3.Select(A.S0, 0), z3.Select(A.S0, 1), A.N >= 2])
+        t.no_raise(paths)
 
         transition(t, A, paths, method, "exactly_the_uncoverable_candidates_move_to_P",
                    S=lambda e: z3.And(z3.Select(A.S0, e), z3.Not(z3.And(open_, new(e)))),
@@ -46,6 +54,8 @@ def _promo(name, method, witness_sets, slack_of, gated=False):
                           z3.ForAll([e], z3.Not(z3.And(z3.Select(S1, e), z3.Select(P1, e)))))
         t.prove_paths("P_never_loses_members_and_stays_disjoint_from_S", paths, mono)
         t.implicit()
+        if t.tier == "thorough":
+            bounded()
     return _t
 
 
@@ -61,16 +71,23 @@ def _useful(name):
     def _t(t):
         install_predicate_contracts(t)
         A = AlgoState(t, name)
-        paths = t.run(ALGOS[name], name + ".useful_updating", [], self_val=A.obj, setmode=True)
+        useful = Specs(A).useful(A.S0, A.P0, A.REG0, A.alpha_eps)
+        bounded = lambda: unrolled_transition(t, A, ALGOS[name], name + ".useful_updating", "U_is_exactly_members_of_P_that_can_still_cover_a_candidate", U=useful)
+        try:
+            paths = t.run(ALGOS[name], name + ".useful_updating", [], self_val=A.obj, setmode=True)
+        except Unsupported:
+            bounded()
+            raise
         t.must_fail()
         t.no_raise(paths)
-        useful = Specs(A).useful(A.S0, A.P0, A.REG0, A.alpha_eps)
 
         transition(t, A, paths, "useful_updating", "U_is_exactly_members_of_P_that_can_still_cover_a_candidate", U=useful,
                    consumers=[("safe/U_keeps_every_member_of_P_that_can_still_cover_a_candidate",
                                lambda S1, P1, U1, res: z3.ForAll([xc], z3.Implies(useful(xc), z3.Select(U1, xc)))),
                               ("safe/S_and_P_untouched", lambda S1, P1, U1, res: z3.And(same_set(S1, A.S0), same_set(P1, A.P0)))])
         t.implicit()
+        if t.tier == "thorough":
+            bounded()
     return _t
 
 
